@@ -52,6 +52,10 @@ func taxTotalsSrcConfig() *G2LConfig {
 			"Combo": {Lean: "GoblVerif.TaxTotals.Combo", Fields: map[string]string{
 				"Category": "category", "Country": "country", "Rate": "rate", "Percent": "percent", "Surcharge": "surcharge",
 				"Ext": "ext", "retained": "retained"}},
+			"taxLine": {Lean: "GoblVerif.TaxTotals.TaxLine", Fields: map[string]string{"total": "total", "taxes": "taxes"}},
+			"TotalCalculator": {Lean: "GoblVerif.TaxTotals.Calculator", Fields: map[string]string{
+				"Country": "country", "Rounding": "rounding", "Currency": "currency", "Tags": "tags", "Date": "date",
+				"Lines": "lines", "Includes": "includes", "zero": "zero"}},
 		},
 		Named: map[string]string{
 			"num.Amount":          "GoblVerif.Amount",
@@ -60,8 +64,12 @@ func taxTotalsSrcConfig() *G2LConfig {
 			"cbc.Key":             "String",
 			"l10n.TaxCountryCode": "String",
 			"Extensions":          "List (String × String)",
+			"Set":                 "List GoblVerif.TaxTotals.Combo",
+			"TaxableLine":         "GoblVerif.TaxTotals.TaxLine",
+			"currency.Code":       "String",
+			"cal.Date":            "GoblVerif.TaxTotals.CalDate",
 		},
-		NonNilElems: []string{"[]*CategoryTotal", "[]*RateTotal"},
+		NonNilElems: []string{"[]*CategoryTotal", "[]*RateTotal", "[]*taxLine", "[]*Combo"},
 		Prims: map[string]string{
 			"num.Amount.Add":            "NumOps.add {0} {1}",
 			"num.Amount.Subtract":       "NumOps.sub {0} {1}",
@@ -93,6 +101,7 @@ func taxTotalsSrcConfig() *G2LConfig {
 			{Name: "Total.calculateFinalSum", InOut: []string{"t"}},
 			{Name: "Total.round", InOut: []string{"t"}},
 			{Name: "Total.rateTotalFor", InOut: []string{"t"}},
+			{Name: "TotalCalculator.calculateBaseRateTotals", InOut: []string{"t"}},
 		},
 	}
 }
